@@ -133,7 +133,10 @@ func (c *clipperBase) recursiveCheckOwners(outrec *OutRec, polypath *PolyPathBas
 func (c *clipperBase) checkSplitOwner(outrec *OutRec, splits []int) bool {
 	for _, i := range splits {
 		split := c.outrecList[i]
-		if split.pts == nil && len(split.splits) > 0 {
+		if split.pts == nil && len(split.splits) > 0 && split.recursiveSplit != outrec {
+			// an emptied record whose splits lead (through other emptied records) back to
+			// itself must be entered once only, or the recursion never ends
+			split.recursiveSplit = outrec
 			if c.checkSplitOwner(outrec, split.splits) {
 				return true
 			}
